@@ -84,6 +84,10 @@ def gen_line(rng, nums):
         elif r < 0.7:
             txt = str(rng.randint(0, 99999))
             segs.append([txt, "asn" if txt in nums else "digits"])
+        elif r < 0.76 and any(int(n) > 65535 for n in nums if n.strip().isdigit()):
+            # the high.low (asdot) pair of a listed 4-byte number is ordinary dotted text - an address octet pair, a version
+            n = int(rng.choice([x for x in nums if x.strip().isdigit() and int(x) > 65535]))
+            segs.append([rng.choice(["%d.%d", "v%d.%d.swi", "cost %d.%d", "eos-4.%d.%d"]) % (n >> 16, n & 0xFFFF), "w"])
         else:
             segs.append([rng.choice(L.BENIGN), "w"])
     out = []
